@@ -34,7 +34,20 @@ R3  leg roles and instants.  The value stored in each timestamp column is resolv
     origin/destination, from/to).
 R4  count recorded (T-ORDER): every path of `add` to `return True` passes
     _add_flight, _add_schedule and _set_flight_count(…, n) with n the return of
-    _add_schedule and the id returned by _add_flight.
+    _add_schedule and the id returned by _add_flight.  What is counted is written
+    before it is committed: `_add_schedule` returns the length of the list of
+    instances (0 only on a path where the list is known to be empty), and on every
+    path to a return that list has been handed to the schedules INSERT
+    (`executemany` of a statement whose computed text is INSERT INTO schedules) or is
+    known to be empty (may-analysis on the CFG with the outcomes of emptiness tests).
+    When the list is instead moved into a list attribute of the database object
+    (a cross-flight buffer that some method INSERTs), then over all methods of the
+    class family (bases and subclasses): every `commit()` on the connection is
+    reached only on paths on which the buffer has been written (an INSERT of it, a
+    call of a method that writes it on all its paths) or is known to be empty; the
+    buffer is emptied only once written (or taken into a local that is written),
+    and every INSERT of it comes with emptying it.  Positive control embedded
+    (a buffering importer that commits on the connection without flushing).
 R5  rejection sites ⊆ documented reasons; `is_row_valid` evaluated on the table of
     documented field values rejects exactly the documented ones.
 R6  expansion shape: inclusive daily pd.date_range over the two effective dates
@@ -1300,25 +1313,429 @@ def _static_str(prog, fi, e):
     return v if isinstance(v, str) else None
 
 
+# ----------------------------------------------------------------------------------------------------
+# where the instances go: the list that is counted, the INSERT that writes it, a buffer in between
+# ----------------------------------------------------------------------------------------------------
+
+def _family(prog, ci):
+    """the classes related to ci by inheritance (its bases, its subclasses, and their bases): the objects whose methods
+    run on the same database connection and the same attributes"""
+    out, seen = [], set()
+    for c in prog.all_classes(src_only=True) if prog is not None else []:
+        if ci in c.mro() or c in ci.mro():
+            for k in c.mro():
+                if id(k) not in seen:
+                    seen.add(id(k))
+                    out.append(k)
+    return out or [ci]
+
+
+def _self_attr(e) -> str | None:
+    return e.attr if isinstance(e, ast.Attribute) and isinstance(e.value, ast.Name) and e.value.id == 'self' else None
+
+
+def _seq_source(fn: ast.AST, e: ast.expr, depth: int = 0):
+    """what a sequence expression denotes: ('local', name) | ('attr', name) | None - through list()/tuple() copies and
+    locals bound once (also by a swap `rows, self.buf = self.buf, []`)"""
+    from ..astutil import tuple_def_component
+    while isinstance(e, ast.Call) and call_name(e) in ('list', 'tuple', 'iter') and len(e.args) == 1 and not e.keywords:
+        e = e.args[0]
+    a = _self_attr(e)
+    if a is not None:
+        return 'attr', a
+    if isinstance(e, ast.Name) and depth < 4:
+        v = single_def_value(fn, e.id)
+        if v is None:
+            t = tuple_def_component(fn, e.id)
+            if t is not None and isinstance(t[0], (ast.Tuple, ast.List)) and t[1] < len(t[0].elts):
+                v = t[0].elts[t[1]]
+        if v is not None:
+            inner = _seq_source(fn, v, depth + 1)
+            if inner is not None and inner[0] == 'attr':
+                return inner
+        return 'local', e.id
+    return None
+
+
+def _schedule_inserts(prog, sch):
+    """[(FunctionInfo, call, columns, sequence expr)]: every `executemany('INSERT INTO schedules (...) VALUES ...', seq)`
+    in the methods of the class family of `_add_schedule`; the statement text is computed"""
+    out = []
+    fam = _family(prog, sch.cls) if sch.cls is not None else []
+    fis = [fi for c in fam for fi in c.methods.values()] or [sch]
+    for fi in fis:
+        for c in calls_in(fi.node):
+            if not (isinstance(c.func, ast.Attribute) and c.func.attr == 'executemany' and len(c.args) >= 2):
+                continue
+            sql = _static_str(prog, fi, c.args[0]) or ''
+            mcol = re.search(r'INSERT\s+(?:OR\s+\w+\s+)?INTO\s+schedules\s*\(([^)]*)\)\s*VALUES', sql, re.S | re.I)
+            if mcol:
+                out.append((fi, c, [x.strip() for x in mcol.group(1).split(',')], c.args[1]))
+    return out
+
+
+def _moves_into_attr(fn: ast.AST, name: str):
+    """[(stmt, attr)]: statements of fn that put the whole local list `name` into an attribute list of self
+    (`self.B.extend(name)`, `self.B += name`)"""
+    out = []
+    for x in walk_no_nested(fn):
+        if isinstance(x, ast.Call) and isinstance(x.func, ast.Attribute) and x.func.attr == 'extend' and len(x.args) == 1 \
+                and isinstance(x.args[0], ast.Name) and x.args[0].id == name and _self_attr(x.func.value):
+            out.append((stmt_of(x), _self_attr(x.func.value)))
+        if isinstance(x, ast.AugAssign) and isinstance(x.op, ast.Add) and _self_attr(x.target) \
+                and isinstance(x.value, ast.Name) and x.value.id == name:
+            out.append((x, _self_attr(x.target)))
+    return out
+
+
+def _schedule_plan(prog, sch):
+    """How the instances reach the table.  -> dict(cols, rows (name of the local list of instances), apps (its append
+    calls), form 'direct' | 'buffered', buffer (attribute name | None), inserts [(fi, call, cols, seq)], moves [(stmt, attr)])
+    or a string saying what was not recognised"""
+    inserts = _schedule_inserts(prog, sch)
+    if not inserts:
+        return 'no executemany of a statically known `INSERT INTO schedules (...)` in the database classes'
+    if len({tuple(i[2]) for i in inserts}) != 1:
+        return 'the schedules INSERT statements do not name the same columns'
+    lists = {}
+    for c in calls_in(sch.node):
+        if isinstance(c.func, ast.Attribute) and c.func.attr == 'append' and isinstance(c.func.value, ast.Name) and len(c.args) == 1:
+            lists.setdefault(c.func.value.id, []).append(c)
+    srcs = [(fi, c, _seq_source(fi.node, seq)) for fi, c, _, seq in inserts]
+    for name, apps in lists.items():
+        if any(fi is sch and src == ('local', name) for fi, _, src in srcs):
+            return dict(cols=inserts[0][2], rows=name, apps=apps, form='direct', buffer=None,
+                        inserts=[i for i, (fi, _, src) in zip(inserts, srcs) if fi is sch and src == ('local', name)], moves=[])
+        moves = _moves_into_attr(sch.node, name)
+        bufs = {a for _, a in moves}
+        if len(bufs) == 1:
+            buf = next(iter(bufs))
+            ins = [i for i, (_, _, src) in zip(inserts, srcs) if src == ('attr', buf)]
+            if ins:
+                return dict(cols=inserts[0][2], rows=name, apps=apps, form='buffered', buffer=buf, inserts=ins, moves=moves)
+    return 'the list of instances that is counted is neither handed to the schedules INSERT nor moved into a list that is'
+
+
 def _schedule_rows(prog, sch):
-    """(columns, value expressions, append call) of the schedules INSERT"""
-    ins = [c for c in calls_in(sch.node) if call_name(c).endswith('executemany') and len(c.args) >= 2]
-    if not ins:
+    """(columns, value expressions, append calls, field names) of the schedule instances"""
+    plan = _schedule_plan(prog, sch)
+    if isinstance(plan, str):
         return None
-    sql = _static_str(prog, sch, ins[0].args[0]) or ''
-    mcol = re.search(r'\(([^)]*)\)\s*VALUES', sql, re.S)
-    cols = [c.strip() for c in mcol.group(1).split(',')] if mcol else []
-    lst = ins[0].args[1]
-    if not isinstance(lst, ast.Name):
-        return None
-    app = [c for c in calls_in(sch.node) if isinstance(c.func, ast.Attribute) and c.func.attr == 'append'
-           and isinstance(c.func.value, ast.Name) and c.func.value.id == lst.id and len(c.args) == 1]
-    if len(app) < 1:
-        return None
-    vals, flds = _row_values(prog, sch, app[0].args[0])
+    vals, flds = _row_values(prog, sch, plan['apps'][0].args[0])
     if vals is None:
         return None
-    return cols, vals, app, flds
+    return plan['cols'], vals, plan['apps'], flds
+
+
+# written-before-committed: a may-analysis over {U: instances not written yet, W: written, E: known to be none}
+
+def _empty_fact(test: ast.expr, truth: bool, text: str) -> bool:
+    """the outcome `truth` of the test establishes that the list `text` is empty"""
+    ln = f'len({text})'
+    for e, p in conjuncts(test, truth):
+        t = norm(e)
+        if t in (text, ln, f'bool({text})') and not p:
+            return True
+        if isinstance(e, ast.Compare) and len(e.ops) == 1:
+            l, r, op = norm(e.left), norm(e.comparators[0]), type(e.ops[0]).__name__
+            if r == ln and l != ln:
+                l, r, op = r, l, {'Lt': 'Gt', 'Gt': 'Lt', 'LtE': 'GtE', 'GtE': 'LtE'}.get(op, op)
+            if l == ln and r in ('0', '1'):
+                empty_when = {('Eq', '0'): True, ('NotEq', '0'): False, ('Gt', '0'): False, ('GtE', '1'): False,
+                              ('Lt', '1'): True, ('LtE', '0'): True}.get((op, r))
+                if empty_when is not None and empty_when == p:
+                    return True
+            if l == text and r in ('[]', '()') and ((op == 'Eq' and p) or (op == 'NotEq' and not p)):
+                return True
+    return False
+
+
+def _heads(n):
+    s_ = n.stmt
+    if s_ is None:
+        return []
+    return {'stmt': [s_], 'test': [getattr(s_, 'test', None)], 'iter': [getattr(s_, 'iter', None)],
+            'with': [i.context_expr for i in getattr(s_, 'items', [])]}.get(n.kind, [])
+
+
+def _node_calls(n):
+    out = []
+    for h in _heads(n):
+        if h is not None:
+            out += [x for x in walk_no_nested(h) if isinstance(x, ast.Call)]
+    return out
+
+
+def _flow(fn: ast.AST, text: str, classify, init='U'):
+    """forward may-analysis of the list `text` through fn.  classify(node) -> 'write' | 'add' | 'clear' | 'unknown' | None
+    ('unknown': a call of a method of the object that is not in the program as the rules see it - X: may or may not
+    have been written).
+    -> (cfg, in-states, exit state)"""
+    g = CFG(fn)
+
+    def tr(node, st):
+        k = classify(node)
+        if k == 'write':
+            return frozenset({'W'})
+        if k == 'add':
+            return frozenset({'U'})
+        if k == 'clear':
+            return frozenset('E' if x == 'W' else x for x in st)
+        if k == 'unknown':
+            return frozenset('X' if x == 'U' else x for x in st)
+        return st
+
+    def br(node, lab, st):
+        if node.kind == 'test' and isinstance(node.stmt, (ast.If, ast.While)) and _empty_fact(node.stmt.test, lab == 't', text):
+            return frozenset('E' if x == 'U' else x for x in st)
+        return st
+    ins, _ = g.forward(frozenset({init}), tr, lambda a, b: a | b, edge_ok=lambda a, b, lab: lab != 'e', branch_transfer=br)
+    return g, ins, ins.get(g.exit, frozenset())
+
+
+def _is_append_to(c: ast.Call, text: str) -> bool:
+    return isinstance(c.func, ast.Attribute) and c.func.attr in ('append', 'extend', 'insert') and norm(c.func.value) == text
+
+
+def _clears(s_, text: str) -> bool:
+    if isinstance(s_, (ast.Assign, ast.AnnAssign)) and getattr(s_, 'value', None) is not None:
+        for t in (s_.targets if isinstance(s_, ast.Assign) else [s_.target]):
+            tv = s_.value
+            if isinstance(t, (ast.Tuple, ast.List)) and isinstance(tv, (ast.Tuple, ast.List)) and len(t.elts) == len(tv.elts):
+                if any(norm(a) == text and _fresh_empty(b) for a, b in zip(t.elts, tv.elts)):
+                    return True
+            if norm(t) == text and _fresh_empty(tv):
+                return True
+            if isinstance(t, ast.Subscript) and norm(t.value) == text and isinstance(t.slice, ast.Slice) and _fresh_empty(tv):
+                return True
+    if isinstance(s_, ast.Delete):
+        return any(isinstance(t, ast.Subscript) and norm(t.value) == text for t in s_.targets)
+    if isinstance(s_, ast.Expr) and isinstance(s_.value, ast.Call) and isinstance(s_.value.func, ast.Attribute) \
+            and s_.value.func.attr == 'clear' and norm(s_.value.func.value) == text:
+        return True
+    return False
+
+
+def _fresh_empty(e) -> bool:
+    return (isinstance(e, (ast.List, ast.Tuple)) and not e.elts) or \
+        (isinstance(e, ast.Call) and call_name(e) in ('list', 'tuple', 'collections.deque', 'deque') and not e.args and not e.keywords)
+
+
+def buffer_discipline(methods: list, buf: str, is_insert, conn_attrs: set[str], skip=('__init__',)):
+    """The instances wait in `self.<buf>` until an INSERT writes them.  methods: [(key, FunctionDef)] of the class family;
+    is_insert(call, fn) says whether a call is the schedules INSERT of self.<buf>.
+    -> dict(flushers {name}, commits [(key, fn, call, ok)], early_clears [(key, fn, stmt)], kept [(key, fn, call)])
+    commits: every `self.<conn>.commit()`; ok = on every normal path to it the buffer has been written (or is known
+    to be empty).  kept: an INSERT after which the buffer is not emptied on some path (it is written again by the next)."""
+    text = f'self.{buf}'
+    by_name: dict[str, list] = {}
+    for key, fn in methods:
+        by_name.setdefault(fn.name, []).append(fn)
+
+    def self_callees(c):
+        if isinstance(c.func, ast.Attribute) and isinstance(c.func.value, ast.Name) and c.func.value.id == 'self':
+            return by_name.get(c.func.attr, [])
+        return []
+    adders: set[int] = set()
+    changed = True
+    while changed:
+        changed = False
+        for _, fn in methods:
+            if id(fn) in adders:
+                continue
+            hit = any(_is_append_to(c, text) for c in calls_in(fn)) \
+                or any(isinstance(x, ast.AugAssign) and norm(x.target) == text and isinstance(x.op, ast.Add) for x in walk_no_nested(fn)) \
+                or any(id(k) in adders for c in calls_in(fn) for k in self_callees(c))
+            if hit:
+                adders.add(id(fn))
+                changed = True
+    flushers: set[int] = set()
+    known_attrs = {_self_attr(t) for _, fn in methods for t, _, _ in stores_to(fn) if _self_attr(t)}
+
+    def classify_in(fn):
+        def classify(node):
+            calls = _node_calls(node)
+            if any(is_insert(c, fn) for c in calls):
+                return 'write'
+            for c in calls:
+                ks = self_callees(c)
+                if ks and all(id(k) in flushers for k in ks):
+                    return 'write'
+            if any(_is_append_to(c, text) for c in calls) or any(id(k) in adders for c in calls for k in self_callees(c)):
+                return 'add'
+            s_ = node.stmt if node.kind == 'stmt' else None
+            if isinstance(s_, ast.AugAssign) and norm(s_.target) == text:
+                return 'add'
+            if s_ is not None and _clears(s_, text):
+                return 'clear'
+            if any(isinstance(c.func, ast.Attribute) and isinstance(c.func.value, ast.Name) and c.func.value.id == 'self'
+                   and c.func.attr not in by_name and c.func.attr not in known_attrs for c in calls):
+                return 'unknown'
+            return None
+        return classify
+    changed = True
+    while changed:
+        changed = False
+        for _, fn in methods:
+            if id(fn) in flushers:
+                continue
+            _, _, at_exit = _flow(fn, text, classify_in(fn))
+            if at_exit and 'U' not in at_exit:
+                flushers.add(id(fn))
+                changed = True
+    commits, early, kept = [], [], []
+    for key, fn in methods:
+        aliases = {t.id for t, st, how in stores_to(fn) if isinstance(t, ast.Name) and how == 'assign'
+                   and _self_attr(st.value) in conn_attrs and single_def_value(fn, t.id) is not None}
+        g, ins, _ = _flow(fn, text, classify_in(fn))
+        cl = classify_in(fn)
+        for n in g.nodes:
+            if n.id not in ins:
+                continue
+            for c in _node_calls(n):
+                if isinstance(c.func, ast.Attribute) and c.func.attr == 'commit' and (
+                        _self_attr(c.func.value) in conn_attrs
+                        or (isinstance(c.func.value, ast.Name) and c.func.value.id in aliases)
+                        or (isinstance(c.func.value, ast.Attribute) and c.func.value.attr == 'connection')):
+                    commits.append((key, fn, c, None if ('X' in ins[n.id] and 'U' not in ins[n.id]) else 'U' not in ins[n.id]))
+        # the buffer is emptied only once it has been written (or its contents were taken into a local that is written),
+        # and every INSERT of the buffer comes with emptying it
+        nok = lambda a, b, lab: lab != 'e'
+        dom, pdom = g.dominators(edge_ok=nok), g.postdominators([g.exit], edge_ok=nok)
+        clear_nodes = {n.id for n in g.nodes if n.kind == 'stmt' and n.stmt is not None and _clears(n.stmt, text)}
+        ins_nodes = [(n, c) for n in g.nodes for c in _node_calls(n) if is_insert(c, fn)]
+        for n in g.nodes:
+            if n.id in ins and n.id in clear_nodes and fn.name not in skip and 'U' in ins[n.id] \
+                    and not any(m_.id == n.id for m_, _ in ins_nodes) \
+                    and not any(isinstance(c.args[1], ast.Name) and m_.id in pdom.get(n.id, set()) for m_, c in ins_nodes):
+                early.append((key, fn, n.stmt))
+        for n, c in ins_nodes:
+            via_local = isinstance(c.args[1], ast.Name)
+            if n.id in clear_nodes or (clear_nodes & pdom.get(n.id, set())) or (via_local and (clear_nodes & dom.get(n.id, set()))):
+                continue
+            kept.append((key, fn, c))
+    return dict(flushers={fn.name for _, fn in methods if id(fn) in flushers}, commits=commits, early_clears=early, kept=kept)
+
+
+_BUFFER_CONTROL = """
+class W:
+    def __init__(self):
+        self._conn = sqlite3.connect(p)
+        self._buf = []
+    def commit(self):
+        self._flush()
+        self._conn.commit()
+    def _flush(self):
+        if len(self._buf) == 0:
+            return
+        self._conn.cursor().executemany('INSERT INTO schedules (a) VALUES (?)', self._buf)
+        self._buf = []
+    def _add_schedule(self, cur):
+        data = []
+        for d in days:
+            data.append((d,))
+        self._buf.extend(data)
+        if len(self._buf) >= 50000:
+            self._flush()
+        return len(data)
+    def add(self, e, commit=True):
+        n = self._add_schedule(self._conn.cursor())
+        if commit:
+            COMMIT
+        return True
+"""
+
+
+def _buffer_control(commit_stmt: str):
+    tree = ast.parse(_BUFFER_CONTROL.replace('COMMIT', commit_stmt))
+    for n in ast.walk(tree):
+        for ch in ast.iter_child_nodes(n):
+            if not isinstance(ch, (ast.expr_context, ast.operator, ast.unaryop, ast.cmpop, ast.boolop)):
+                ch._parent = n
+    ms = [(f.name, f) for f in tree.body[0].body]
+    r = buffer_discipline(ms, '_buf', lambda c, fn: isinstance(c.func, ast.Attribute) and c.func.attr == 'executemany'
+                          and len(c.args) == 2 and norm(c.args[1]) == 'self._buf', {'_conn'})
+    return {(k, ok) for k, _, _, ok in r['commits']}
+
+
+def _rule_written(ctx, prog, sch):
+    """R4: every instance counted is written to the schedules table before the transaction is committed."""
+    plan = _schedule_plan(prog, sch)
+    if isinstance(plan, str):
+        ctx.undecided('C13-R4', sch, 'schedules INSERT', plan)
+    rows = plan['rows']
+    write_stmts = {id(stmt_of(c)) for _, c, _, _ in plan['inserts'] if plan['form'] == 'direct'} | {id(st) for st, _ in plan['moves']}
+
+    def classify(node):
+        if node.stmt is not None and node.kind == 'stmt' and id(node.stmt) in write_stmts:
+            return 'write'
+        if any(_is_append_to(c, rows) for c in _node_calls(node)):
+            return 'add'
+        return None
+    g, ins, _ = _flow(sch.node, rows, classify, init='E')
+    rets = [n for n in g.nodes if n.kind == 'stmt' and isinstance(n.stmt, ast.Return) and n.id in ins]
+    where_to = 'handed to the schedules INSERT' if plan['form'] == 'direct' else f'moved into self.{plan["buffer"]}'
+    for r in rets:
+        ok = 'U' not in ins[r.id]
+        ctx.ob('C13-R4', sch, f'every counted instance is {where_to}', ok,
+               f'on every path to the return the list `{rows}` has been {where_to} (or is known to be empty)' if ok else
+               f'some path returns the count of `{rows}` without the instances having been {where_to}: the flight is recorded '
+               'with a number of instances that the schedules table does not hold', line=r.line)
+    ctx.floor('C13-R4/written', len(rets), 1, 'returns of _add_schedule')
+    bad = _buffer_control('self._conn.commit()')
+    good = _buffer_control('self.commit()')
+    good2 = _buffer_control('self._flush(); self._conn.commit()')
+    ctx.control('C13-R4', ('add', False) in bad and ('commit', True) in bad and all(ok for _, ok in good | good2)
+                and ('add', True) in good2,
+                'embedded importer that buffers instances and commits on the connection without flushing is reported; the same '
+                'importer committing through the flushing method is accepted')
+    if plan['form'] == 'direct':
+        return
+    buf = plan['buffer']
+    fam = _family(prog, sch.cls)
+    methods = [(fi, fi.node) for c in fam for fi in c.methods.values()]
+    conn_attrs = set()
+    for _, fn in methods:
+        for t, st, how in stores_to(fn):
+            if _self_attr(t) and isinstance(getattr(st, 'value', None), ast.Call) and call_name(st.value).split('.')[-1] == 'connect':
+                conn_attrs.add(_self_attr(t))
+    if not conn_attrs:
+        ctx.undecided('C13-R4', sch, f'self.{buf}', 'the attribute holding the database connection was not found')
+    ins_ids = {id(c) for _, c, _, _ in plan['inserts']}
+    res = buffer_discipline(methods, buf, lambda c, fn: id(c) in ins_ids, conn_attrs)
+    for _, fn in methods:
+        for x in walk_no_nested(fn):
+            if isinstance(x, (ast.With, ast.AsyncWith)) and any(_self_attr(i.context_expr) in conn_attrs for i in x.items):
+                ctx.undecided('C13-R4', sch, f'with self.{sorted(conn_attrs)[0]}', 'a connection used as a context manager commits '
+                              'at the end of the block; not modelled together with a buffer of instances')
+    flush_txt = ', '.join(sorted({f"{fi.qualname} (line {int(c.lineno)})" for fi, c, _, _ in plan['inserts']}))
+    for fi, fn, c, ok in res['commits']:
+        if ok is None:
+            ctx.undecided('C13-R4', fi, norm(c), f'a method of the object that the program model does not have is called before this '
+                          f'commit; whether it writes self.{buf} cannot be decided')
+        ctx.ob('C13-R4', fi, f'{norm(c)} only after the buffered instances were written', ok,
+               f'on every path to this commit self.{buf} has been written to the schedules table (or is empty)' if ok else
+               (f'{sch.name} only moves the instances it counts into self.{buf}; they are INSERTed by {flush_txt}.  This commit is '
+                f'reached on a path that does not write the buffer: the transaction that records the flight and its '
+                f'number_of_flights is committed while the instances are still in memory, and nothing on this path writes them later - '
+                f'the file holds the flight with number_of_flights = n and no rows in schedules'), line=c.lineno)
+    ctx.floor('C13-R4/commits', len(res['commits']), 1, 'commit() calls on the connection in the database classes')
+    for fi, fn, st in res['early_clears']:
+        ctx.ob('C13-R4', fi, f'{norm(st)[:60]} drops instances that were not written', False,
+               f'self.{buf} is emptied on a path on which it has not been written to the schedules table', line=st.lineno)
+    for fi, fn, c in res['kept']:
+        ctx.ob('C13-R4', fi, f'self.{buf} emptied after {norm(c.func)}', False,
+               f'after the INSERT self.{buf} still holds the instances on some path: the next flush writes them a second time',
+               line=c.lineno)
+    # commits on the connection from outside the classes
+    for fi in prog.all_functions(src_only=True):
+        if any(fi.node is fn for _, fn in methods):
+            continue
+        for c in calls_in(fi.node):
+            if isinstance(c.func, ast.Attribute) and c.func.attr == 'commit' and isinstance(c.func.value, ast.Attribute) \
+                    and c.func.value.attr in conn_attrs:
+                ctx.undecided('C13-R4', fi, norm(c), f'a commit on the connection from outside the database classes while instances '
+                              f'are buffered in self.{buf}')
 
 
 def _rule_r3(ctx, prog, add, flt, sch):
@@ -1474,6 +1891,7 @@ def _is_difference_of_instants(x, lset) -> bool:
 
 
 def _rule_r4(ctx, prog, wm, add, flt, sch):
+    _rule_written(ctx, prog, sch)
     g = CFG(add.node)
     dom = g.dominators(edge_ok=lambda a, b, lab: lab != 'e')
 
@@ -1523,8 +1941,15 @@ def _rule_r4(ctx, prog, wm, add, flt, sch):
     rows = _schedule_rows(prog, sch)
     r = [n for n in walk_no_nested(sch.node) if isinstance(n, ast.Return)]
     lst = rows[2][0].func.value.id if rows else None
+    empty_at = set()
+    if lst is not None:
+        # a return on a path on which the list is known to be empty may say 0
+        g_, ins_, _ = _flow(sch.node, lst, lambda node: 'add' if any(_is_append_to(c, lst) for c in _node_calls(node)) else None, init='E')
+        empty_at = {id(n.stmt) for n in g_.nodes if n.kind == 'stmt' and isinstance(n.stmt, ast.Return) and ins_.get(n.id) == frozenset({'E'})}
     ok = bool(r) and lst is not None and all(
-        isinstance(x.value, ast.Call) and call_name(x.value) == 'len' and norm(x.value.args[0]) == lst for x in r)
+        (isinstance(x.value, ast.Call) and call_name(x.value) == 'len' and norm(x.value.args[0]) == lst)
+        or (id(x) in empty_at and isinstance(x.value, ast.Constant) and x.value.value == 0 and x.value.value is not False) for x in r) \
+        and any(isinstance(x.value, ast.Call) for x in r)
     ctx.ob('C13-R4', sch, 'returns the number of instances created', ok,
            f'len({lst})' if ok else '_add_schedule does not return the number of rows it inserts')
     sq = [c for c in calls_in(cnt.node) if call_name(c).endswith('.execute') and len(c.args) >= 2]
